@@ -12,6 +12,7 @@
 // See the License for the specific language governing permissions and
 // limitations under the License.
 
+#[cfg(not(foyer_verif))]
 use std::{
     any::Any,
     fmt::Debug,
@@ -25,6 +26,22 @@ use std::{
     },
     task::{Context, Poll},
 };
+#[cfg(foyer_verif)]
+use std::{
+    any::Any,
+    fmt::Debug,
+    future::Future,
+    hash::Hash,
+    ops::Deref,
+    pin::Pin,
+    sync::{
+        Arc,
+        atomic::{Ordering},
+    },
+    task::{Context, Poll},
+};
+#[cfg(foyer_verif)]
+use foyer_common::verif::sync::atomic::{AtomicBool};
 
 use equivalent::Equivalent;
 use foyer_common::{
@@ -39,7 +56,10 @@ use foyer_common::{
 };
 use futures_util::FutureExt as _;
 use itertools::Itertools;
+#[cfg(not(foyer_verif))]
 use parking_lot::{Mutex, RwLock};
+#[cfg(foyer_verif)]
+use foyer_common::verif::sync::{Mutex, RwLock};
 use pin_project::{pin_project, pinned_drop};
 
 use crate::{
@@ -494,6 +514,8 @@ where
             .map(|(i, shard_capacity)| {
                 let pipe = self.pipe.clone();
                 let inner = self.inner.clone();
+                #[cfg(foyer_verif)]
+                use foyer_common::verif::sync as std;
                 std::thread::spawn(move || {
                     let mut garbages = vec![];
                     let res = inner.shards[i].write().with(|mut shard| {
